@@ -26,6 +26,10 @@ func NewMapOfGrowOnly[K comparable, V any](presize int) cache.MapOf[K, V] {
 // not be lifted in this tree.
 func SetMinTableLen(n int) bool { return xsync.VerifSetMinTableLen(n) }
 
+// SetMinCapacity sets the floor the cache constructors apply to MinCapacity
+// (shipped: 96 = 32 buckets x 3); false if the knob could not be lifted.
+func SetMinCapacity(n int) bool { return cache.VerifSetMinCapacity(n) }
+
 // Stats is the part of xsync.MapStats the driver reads.
 type Stats struct {
 	RootBuckets  int
